@@ -355,6 +355,13 @@ pub fn random(args: &Args) {
     for run in 0..runs {
         let mut rng = Rng::new(seed0.wrapping_mul(5_000_011).wrapping_add(run as u64));
         let mut dev = QDev::new(Medium::Ethernet, 1514);
+        // every eighth run: a device that verifies IPv4 header checksums on receive and computes them itself on transmit
+        // (the stack leaves the field to it) -- what the sockets hand over must leave all the same
+        let offload = run % 8 == 3;
+        if offload {
+            dev.csum.ipv4 = smoltcp::phy::Checksum::Rx;
+            dev.hw_ipv4 = true;
+        }
         let mut c = Config::new(HardwareAddress::Ethernet(EthernetAddress(MY_MAC)));
         c.random_seed = rng.next();
         let mut iface = Interface::new(c, &mut dev, Instant::from_millis(0));
@@ -470,7 +477,7 @@ pub fn random(args: &Args) {
         } else {
             json!([{"p":[0,0,0,0],"plen":0,"gw":[10,0,0,254],"exp":-1}])
         };
-        t.ev(json!({"ev":"reset","run":run,"world":"neigh","seed":seed0,"cfg":{"cache":cache,"v6":v6,"mtu":1500,"my_ip":[10,0,0,1],"p2p":if p2p { json!([P2P_ME, P2P_PEER]) } else { json!([]) },"my_mac":mac_s(&MY_MAC),"net":[10,0,0],"socks":scfg,
+        t.ev(json!({"ev":"reset","run":run,"world":"neigh","seed":seed0,"cfg":{"cache":cache,"v6":v6,"offload":offload,"mtu":1500,"my_ip":[10,0,0,1],"p2p":if p2p { json!([P2P_ME, P2P_PEER]) } else { json!([]) },"my_mac":mac_s(&MY_MAC),"net":[10,0,0],"socks":scfg,
             "icmp_udp":icmp_udp,"routes":routes,"arp_delay":arp_delay.iter().map(|(k,v)| json!([k,v])).collect::<Vec<_>>()}}));
         let mut pending: Vec<(i64, Vec<u8>)> = vec![]; // frames to deliver to the interface at a given time
         let mut next_did = 1u32;
